@@ -43,7 +43,11 @@ def _work(job):
 
     def tally(c):
         counts[c] = counts.get(c, 0) + 1
-    mm, at = aave_drv.replay_path(uni, scn, steps, mode, tally)
+    probes = []
+    mm, at = aave_drv.replay_path(uni, scn, steps, mode, tally, probes, _G.get("owner") == "C11")
+    for pr in probes:
+        pr["scenario"] = [aave_drv.json_ev(e) for e in scn]
+        pr["events"] = [aave_drv.json_ev(s[0]) for s in steps[:pr.get("step", 0) + 1]]
     rep = None
     if mm:
         rep = {"kind": "aave_path", "scenario": scn, "events": [s[0] for s in steps[:at + 1]], "read_mode": mode,
@@ -51,7 +55,7 @@ def _work(job):
                "mismatches": [repr(m) for m in mm]}
     sample = {"scenario": [aave_drv.fmt_ev(e) + ":" + e["op"] for e in scn],
               "events": [e["op"] + aave_drv.fmt_ev(e) + "->" + o for e, o, *_ in steps]}
-    return [(m.prop, m.clause, m.text) for m in mm], rep, counts, len(steps), sample
+    return [(m.prop, m.clause, m.text) for m in mm], rep, counts, len(steps), sample, probes
 
 
 def run(chk: Check, owner: str) -> int:
@@ -62,8 +66,11 @@ def run(chk: Check, owner: str) -> int:
         if prop not in r.violated:
             raise RuntimeError(f"vacuous: DEV_{dev} does not violate {prop}")
     # exhaustive BFS (invariants + action properties) with state-graph dump
-    res, g = tlc.dump_lazy(SPEC, MC / ("MC_Aave_quick.cfg" if quick else "MC_Aave_bfs3.cfg"), chk.tmp, workers=16,
-                           timeout=1500)
+    if owner == "C12":
+        bfs_cfg = "MC_Aave_liq.cfg" if quick else "MC_Aave_liq2.cfg"
+    else:
+        bfs_cfg = "MC_Aave_quick.cfg" if quick else "MC_Aave_bfs3.cfg"
+    res, g = tlc.dump_lazy(SPEC, MC / bfs_cfg, chk.tmp, workers=16, timeout=1500)
     chk.add_tlc(res, "bfs")
     chk.spec_violation(res, "bfs")
     universe = tlc.printed(res.output, "universe")
@@ -88,12 +95,14 @@ def run(chk: Check, owner: str) -> int:
     chk.spec_violation(sres, "simulate")
     for i, b in enumerate(behs):
         jobs.append(("beh", [s for _, s in b], "all" if i % 2 == 0 else "events"))
-    _G["universe"], _G["graph"] = universe, g
+    _G["universe"], _G["graph"], _G["owner"] = universe, g, owner
+    all_probes = []
     _G.pop("uni", None)
     ctx = mp.get_context("fork")
     nontrivial = set()
     with ctx.Pool(16) as pool:
-        for mm, rep, counts, nsteps, sample in pool.imap_unordered(_work, jobs, chunksize=8):
+        for mm, rep, counts, nsteps, sample, probes in pool.imap_unordered(_work, jobs, chunksize=8):
+            all_probes.extend(probes)
             chk.traces += 1
             chk.evaluations += nsteps
             for c, n in counts.items():
@@ -106,6 +115,7 @@ def run(chk: Check, owner: str) -> int:
                     chk.violation(f"AaveV3Market|{clause}|{rep['events'][-1]['op'] if rep['events'] else 'prefix'}", text, rep)
                 else:
                     chk.count(f"other/{prop}/{clause}")
+    judge_probes(chk, owner, all_probes)
     chk.extra["distinct_nontrivial"] = len(nontrivial)
     chk.extra["universe"] = {"tokens": sorted(universe["tokens"]), "rows": len(universe["rows"])}
     chk.assumptions += ["rate_to_apy(rate) is taken from the code as a leaf function; the spec provides the value weights",
@@ -114,5 +124,120 @@ def run(chk: Check, owner: str) -> int:
                       "AaveV3Market; non-trivial = contains at least one accepted operation; distinct by event sequence")
 
 
+def judge_probes(chk: Check, owner: str, probes):
+    """Code -> spec leg: TLC (Trace_AaveProbe) evaluates the spec on states/events recorded from the real code."""
+    import json
+    if not probes:
+        return
+    # de-duplicate identical probes (same state and event), cap the batch
+    seen, uniq = set(), []
+    for pr in probes:
+        key = json.dumps({k: pr.get(k) for k in ("kind", "st", "st2", "ev", "act", "acts", "tag", "what")}, sort_keys=True, default=list)
+        if key not in seen:
+            seen.add(key)
+            uniq.append(pr)
+    rnd = random.Random(chk.seed)
+    cap = 4000 if chk.tier == "quick" else 40000
+    if len(uniq) > cap:
+        uniq = rnd.sample(uniq, cap)
+    tl = [pr for pr in uniq if pr["kind"] in ("step", "liqstep", "liqrun")]
+    verdicts = []
+    if tl:
+        f = chk.tmp / "probes.ndjson"
+        with open(f, "w") as fh:
+            for pr in tl:
+                fh.write(json.dumps({k: pr[k] for k in ("kind", "st", "st2", "ev", "act", "acts") if k in pr}, default=list) + "\n")
+        tla = VERIF / "spec" / "trace" / "Trace_AaveProbe.tla"
+        lvl2 = any("DAI" in pr["st"]["w"] for pr in tl)
+        r = tlc.run(tla, tla.parent / ("Trace_AaveProbe2.cfg" if lvl2 else "Trace_AaveProbe.cfg"), chk.tmp, workers=1, env={"VERIF_PROBES": str(f)}, timeout=1500)
+        verdicts = list(tlc.printed(r.output, "probe_results"))
+        if len(verdicts) != len(tl):
+            raise RuntimeError(f"probe oracle returned {len(verdicts)} verdicts for {len(tl)} probes")
+        chk.extra["probe_oracle"] = {"probes": len(tl), "wall_s": round(r.wall_s, 1)}
+    chk.traces += len({json.dumps((pr["scenario"], pr["events"]), default=list) for pr in uniq})
+    vi = iter(verdicts)
+    band = {}
+    for pr, v in zip(tl, verdicts):
+        if pr.get("tag") == "at_band":
+            band[(json.dumps(pr["st"], sort_keys=True), pr["helper"], pr["token"])] = v
+    for pr in uniq:
+        rep = {"kind": "aave_probe", **{k: pr.get(k) for k in ("scenario", "events", "helper", "token", "value", "tag", "ev", "act", "what")}}
+        k = pr["kind"]
+        if k == "helper_raises":
+            chk.count("C11/helper_callable")
+            if owner == "C11":
+                chk.violation("AaveV3Market|helper_raises|", pr["what"], rep)
+            continue
+        if k == "liq_no_record":
+            chk.count("C12/step_has_record")
+            if owner == "C12":
+                chk.violation("AaveV3Market|liquidation_record|", pr["what"], rep)
+            continue
+        v = next(vi)
+        if k == "liqrun":
+            chk.count("C12/liq_run_relation(trace)")
+            if v != "ok" and owner == "C12":
+                chk.violation("AaveV3Market|liq_run_relation|", f"update(): liquidation run with steps {pr['acts']} violates LiqRunOK "
+                              "(iff HF<1 / wallet untouched / each debt once / end condition)", {**rep, "acts": pr["acts"]})
+            continue
+        if k == "liqstep":
+            chk.count("C12/liq_step_relation(trace)")
+            if v != "ok" and owner == "C12":
+                chk.violation(f"AaveV3Market|liq_step_relation|{pr['act']['collateral']}-{pr['act']['debt']}",
+                              f"recorded liquidation step {pr['act']['collateral']}/{pr['act']['debt']} violates LiqStepOK", rep)
+            continue
+        tag, h = pr["tag"], pr["helper"]
+        if tag == "at_band":
+            continue
+        chk.count(f"C11/{h}_{tag}")
+        if owner != "C11":
+            continue
+        what = f"{h}({pr['token']}) = {pr['value']}"
+        if tag == "bounds" and not pr["ok"]:
+            chk.violation(f"AaveV3Market|{h}_bounds|", f"{what} is outside [0, supplied {pr['supplied']}]", rep)
+        elif tag == "at":
+            if pr["code_out"] != "ok":
+                chk.violation(f"AaveV3Market|{h}_not_accepted|", f"{what} is rejected by the code", rep)
+            elif v != "ok" and band.get((json.dumps(pr["st"], sort_keys=True), h, pr["token"])) != "ok":
+                chk.violation(f"AaveV3Market|{h}_beyond_limit|", f"{what} exceeds the limit of the specification", rep)
+        elif tag == "beyond":
+            if v == "reject" and pr["code_out"] == "ok":
+                chk.violation(f"AaveV3Market|{h}_beyond_accepted|", f"{what}: an amount 0.1% beyond it is accepted but beyond the limit", rep)
+            elif v == "ok":
+                chk.count("info/helper_not_tight")
+
+
+def _tup(x):
+    return tuple(_tup(i) for i in x) if isinstance(x, list) else ({k: _tup(v) for k, v in x.items()} if isinstance(x, dict) else x)
+
+
 def replay(chk: Check, path: str, owner: str) -> int:
-    raise NotImplementedError
+    """Re-run a recorded scenario against the working tree; the expected behaviour is recomputed by TLC."""
+    import json
+    from . import aave_drv
+    rep = json.load(open(path))["replay"]
+    scn, events = rep["scenario"], rep["events"]
+    lvl2 = any(e.get("t") == "DAI" or e.get("with") == "DAI" for e in scn + events)
+    f = chk.tmp / "probes.ndjson"
+    f.write_text(json.dumps({"kind": "path", "scn": scn, "events": events}) + "\n")
+    tla = VERIF / "spec" / "trace" / "Trace_AaveProbe.tla"
+    r = tlc.run(tla, tla.parent / ("Trace_AaveProbe2.cfg" if lvl2 else "Trace_AaveProbe.cfg"), chk.tmp, workers=1,
+                env={"VERIF_PROBES": str(f)}, timeout=600)
+    exp = tlc.printed(r.output, "probe_results")[0]
+    universe = tlc.printed(r.output, "universe")
+    uni = aave_drv.Universe(universe)
+    steps = [(s["ev"], s["out"], list(s["acts"]), s["st"], s["view"]) for s in exp]
+    probes = []
+    mm, at = aave_drv.replay_path(uni, [_tup(e) for e in scn], steps, rep.get("read_mode", "all"), chk.count, probes, owner == "C11")
+    chk.traces += 1
+    chk.evaluations += len(steps)
+    for pr in probes:
+        pr["scenario"], pr["events"] = scn, events[:pr.get("step", 0) + 1]
+    for m in mm:
+        print(f"  mismatch at step {at}: {m}")
+        if m.prop == owner:
+            chk.violation(f"AaveV3Market|{m.clause}|{events[at]['op'] if at >= 0 else 'prefix'}", m.text, rep)
+    judge_probes(chk, owner, probes)
+    chk.sample({"scenario": scn, "events": events})
+    uni.close()
+    return chk.finish("replay of one recorded scenario; expected behaviour recomputed by TLC (Trace_AaveProbe kind=path)")
